@@ -513,6 +513,56 @@ Check C17_builtin_composition_float : forall a b c ua ub uc v,
     (Rabs (Rv r2 - Rv r3) <= (qq ^ 6 - 1) * Rabs (Rv r3))%R.
 Print Assumptions C17_builtin_composition_float.
 
+(* ---- composition for the temperature kind too (beyond the assignment): fl(A->B->C) and fl(A->C) both approximate
+   the same exact value; [tcomp_bound ta tb tc a] = 2^-53 * (1 + 1/1024) * (A * a + B), 27 constant pairs (A, B) by
+   the to_kelvin functions of A, B, C (coq/proofs/UnitsFloat2.v: tcomp_A, tcomp_B) *)
+Theorem C17_composition_float_temperature : forall ua ub uc ta fa tb fb tc fc v,
+  u_conv ua = Temperature ta fa -> u_conv ub = Temperature tb fb -> u_conv uc = Temperature tc fc ->
+  inverse_pair ta fa = true -> inverse_pair tb fb = true -> inverse_pair tc fc = true ->
+  finz v -> (Rabs (Rv v) <= bpow radix2 1000)%R ->
+  let r_ab := through_base fl v ua ub in
+  let r_abc := through_base fl r_ab ub uc in
+  let r_ac := through_base fl v ua uc in
+  finz r_abc /\ finz r_ac /\ (Rabs (Rv r_abc - Rv r_ac) <= tcomp_bound ta tb tc (Rabs (Rv v)))%R.
+Proof. exact composition_float_temperature. Qed.
+Check C17_composition_float_temperature : forall ua ub uc ta fa tb fb tc fc v,
+  u_conv ua = Temperature ta fa -> u_conv ub = Temperature tb fb -> u_conv uc = Temperature tc fc ->
+  inverse_pair ta fa = true -> inverse_pair tb fb = true -> inverse_pair tc fc = true ->
+  finz v -> (Rabs (Rv v) <= bpow radix2 1000)%R ->
+  let r_ab := through_base fl v ua ub in
+  let r_abc := through_base fl r_ab ub uc in
+  let r_ac := through_base fl v ua uc in
+  finz r_abc /\ finz r_ac /\ (Rabs (Rv r_abc - Rv r_ac) <= tcomp_bound ta tb tc (Rabs (Rv v)))%R.
+Print Assumptions C17_composition_float_temperature.
+
+Theorem C17_builtin_composition_temperature : forall a b c ua ub uc ta fa tb fb tc fc v,
+  resolve_unit a = UOk ua -> resolve_unit b = UOk ub -> resolve_unit c = UOk uc ->
+  u_cat ua = u_cat ub -> u_cat ub = u_cat uc ->
+  u_conv ua = Temperature ta fa -> u_conv ub = Temperature tb fb -> u_conv uc = Temperature tc fc ->
+  finz v -> (Rabs (Rv v) <= bpow radix2 1000)%R ->
+  exists r1 r2 r3,
+    builtin_convert (ANum v) (AStr a) (AStr b) = UOk r1 /\
+    builtin_convert (ANum r1) (AStr b) (AStr c) = UOk r2 /\
+    builtin_convert (ANum v) (AStr a) (AStr c) = UOk r3 /\
+    (Rabs (Rv r2 - Rv r3) <= tcomp_bound ta tb tc (Rabs (Rv v)))%R.
+Proof. exact builtin_composition_temperature. Qed.
+Check C17_builtin_composition_temperature : forall a b c ua ub uc ta fa tb fb tc fc v,
+  resolve_unit a = UOk ua -> resolve_unit b = UOk ub -> resolve_unit c = UOk uc ->
+  u_cat ua = u_cat ub -> u_cat ub = u_cat uc ->
+  u_conv ua = Temperature ta fa -> u_conv ub = Temperature tb fb -> u_conv uc = Temperature tc fc ->
+  finz v -> (Rabs (Rv v) <= bpow radix2 1000)%R ->
+  exists r1 r2 r3,
+    builtin_convert (ANum v) (AStr a) (AStr b) = UOk r1 /\
+    builtin_convert (ANum r1) (AStr b) (AStr c) = UOk r2 /\
+    builtin_convert (ANum v) (AStr a) (AStr c) = UOk r3 /\
+    (Rabs (Rv r2 - Rv r3) <= tcomp_bound ta tb tc (Rabs (Rv v)))%R.
+Print Assumptions C17_builtin_composition_temperature.
+Example C17_tcomp_bound_constants :
+  (tcomp_bound TF_celsius_to_kelvin TF_fahrenheit_to_kelvin TF_kelvin_to_kelvin 1 = u53 * (1 + / 1024) * (10 * 1 + 4769) /\
+   tcomp_bound TF_fahrenheit_to_kelvin TF_celsius_to_kelvin TF_kelvin_to_kelvin 1 = u53 * (1 + / 1024) * (6 * 1 + 1544) /\
+   tcomp_bound TF_kelvin_to_kelvin TF_celsius_to_kelvin TF_fahrenheit_to_kelvin 1 = u53 * (1 + / 1024) * (18 * 1 + 4490))%R.
+Proof. repeat split; reflexivity. Qed.
+
 (* ---- Examples: the hypotheses are decidable and hold on real rows of the table *)
 (* 123456.789 km -> mi -> km (linear/linear), 30 mpg -> l/100km -> mpg (reciprocal/linear),
    30 mpg -> imp mpg -> mpg (reciprocal/reciprocal) *)
